@@ -1,7 +1,7 @@
 (** * Extraction of the executable model for the correspondence harness.
     [ExtrOcamlBasic] only: bool, option, unit, prod, list, sumbool map to OCaml's; [N], [nat],
     [positive] stay the extracted inductive types.  No [Extract Constant]. *)
-From SSZ Require Import Codec Spec BitfieldOps Hex Alloc Derive.
+From SSZ Require Import Codec Spec BitfieldOps Hex Alloc Derive SplitSpec SpecDec.
 Require Extraction.
 Require ExtrOcamlBasic.
 Extraction Language OCaml.
@@ -27,4 +27,5 @@ Extraction "extracted/ssz_model.ml"
   run_impl run_abs a_decode a_resize a_from_bytes_with_len i_decode i_ssz a_ssz unpack
   hex_encode prefixed_hex_decode serde_ser serde_de
   units ufactor
-  derive derive_enc derive_dec union_selectors.
+  derive derive_enc derive_dec union_selectors
+  SplitSpec.split layout_ok spec_dec.
